@@ -175,12 +175,14 @@ let () =
                if int_of_z s'.s_ck.ck_state = 3 && int_of_z !s.s_ck.ck_state <> 3 then incr n_unsup;
                s := s';
                (* the property's oracle on the implementation's observation *)
+               (* (only up to the first step it rejects: afterwards its history summary no longer
+                  describes what the implementation believes) *)
                (match impl_obs il with
-                | Some io ->
+                | Some io when !fails = [] ->
                   let (g', v) = mon_step !g ev io in
                   g := g';
                   List.iter (fun x -> fails := (vk x, Printf.sprintf "step=%d [%s] impl=[%s]" idx step il) :: !fails) v
-                | None -> ())
+                | _ -> ())
              | Err _ -> ub := true; diffs := Printf.sprintf "step %d model=Err" idx :: !diffs
              | UB _ -> ub := true; diffs := Printf.sprintf "step %d (%s) model=UB impl=[%s]" idx step il :: !diffs)
         end) steps;
